@@ -15,5 +15,5 @@ def run(chk):
     c01.run_pipeline(chk, want=("C02",),
                      mc=("MC_Pipeline_freq_quick.cfg", ("MC_Pipeline_freq_full.cfg", "MC_Pipeline_freq_d3.cfg")),
                      gen_d1="Gen_Pipeline_freq_d1.cfg", gen_sim="Gen_Pipeline_freq_sim.cfg",
-                     quick_cases=2500, full_cases=80000)
+                     quick_cases=2500, full_cases=80000, nconc=(5, 10))
     chk.assumptions.append("label comparisons: 8 ulp of the largest |label| per operation")
